@@ -111,7 +111,11 @@ def support_case(shard, env, res):
     from term_image.image import BlockImage, ITerm2Image, KittyImage
 
     kw = shard["persona_kw"]
-    term_image.set_query_timeout(shard["timeout"])
+    # a terminal that answers DA1 ends every query early, so a generous timeout costs nothing
+    # and a merely slow machine cannot change a decision; one that does not costs the full
+    # timeout per query
+    support_timeout = 5.0 if kw["da1"] else max(1.0, shard["timeout"])
+    term_image.set_query_timeout(support_timeout)
     name, version = kw["name"], kw["version"]
     if not kw["xtversion"]:
         tp = shard.get("env_term_program")
@@ -144,7 +148,7 @@ def support_case(shard, env, res):
         # "The graphics query for support detection messes up iTerm2's window title"
         errs.append(("kitty-query-sent-to-iterm2", "the kitty graphics query was sent to a terminal that identified itself as iTerm2"))
     # bounded progress: at most one timeout per query issued (3 queries) plus slack
-    limit = 3 * shard["timeout"] + 2.0
+    limit = (3 * support_timeout if not kw["da1"] else 0) + 3.0
     if dt > limit:
         res.inconclusive.append("support detection took %.2fs (> %.2fs): watchdog, not a verdict" % (dt, limit))
     for k, m in errs:
@@ -165,7 +169,7 @@ def value_case(rnd, shard, env, res, name, version, attempt=0):
     from term_image import utils
 
     p = env.persona
-    timeout = shard["timeout"] * (1 + 2 * attempt)
+    timeout = shard["timeout"] * (1, 3, 25)[attempt]  # the last attempt rules out a merely slow machine
     term_image.set_query_timeout(timeout)
     digits = rnd.randint(1, 4)
     fgc, fg_exp = rgb_reply(rnd, digits)
